@@ -133,6 +133,18 @@ def conversions_and_fromscalars(ctx, T, db, r, n_cases):
             got = list(fs.GetValues())
             if len(got) != n or not all(close(g, x) for g, x in zip(got, want)) or fs.GetUnit() != v:
                 ctx.violation("FromScalars(unit)", dict(case, got=got, want=want, unit=fs.GetUnit()), replay=case)
+            # the scalars may come as any iterable - a tuple, an iterator, a generator, a map object (each can be walked once)
+            for label, it in (("tuple", tuple(ss)), ("iterator", iter(ss)), ("generator", (s_ for s_ in ss)), ("map", map(lambda s_: s_, ss))):
+                for with_unit in (True, False):
+                    if not with_unit and (not n or label == "tuple"):
+                        continue
+                    ctx.ev()
+                    src = it if label == "tuple" else {"iterator": iter(ss), "generator": (s_ for s_ in ss), "map": map(lambda s_: s_, ss)}[label]
+                    fi = Array.FromScalars(src, unit=v) if with_unit else Array.FromScalars(src)
+                    wi = want if with_unit else [s_.GetValue(ss[0].GetUnit()) for s_ in ss]
+                    gi = list(fi.GetValues())
+                    if len(gi) != n or not all(close(g, x) for g, x in zip(gi, wi)) or fi.GetUnit() != (v if with_unit else ss[0].GetUnit()):
+                        ctx.violation("FromScalars(%s%s)" % (label, ", unit" if with_unit else ""), dict(case, got=gi, want=wi, unit=fi.GetUnit()), replay=case)
             if n:
                 f2 = Array.FromScalars(ss)
                 ctx.ev()
@@ -170,6 +182,31 @@ def conversions_and_fromscalars(ctx, T, db, r, n_cases):
         except Exception as e:
             ctx.ev()
             ctx.violation("conversion-raised:%s" % type(e).__name__, dict(case, error=str(e)[:200]), replay=case)
+
+
+def large_arrays(ctx, T, db):
+    """arrays longer than any block a conversion might work in (65 536 items and a tail): GetValues(unit) and + / - with a
+    list-free ndarray operand in another unit, compared with the Scalars at both ends, in the middle and across block edges"""
+    import numpy as np
+    from barril.units import Array, Scalar
+
+    idx = (0, 1, 65535, 65536, 65537, 69998, 69999, 70000)
+    for u, v in (("m", "cm"), ("degC", "K"), ("bar", "psi")):
+        for n in (70001, 131075):
+            vals = np.linspace(-50.0, 50.0, n)
+            case = {"u": u, "v": v, "items": n}
+            ctx.ev()
+            ctx.nt(("large array", u, v, n))
+            try:
+                a = Array(vals, u)
+                conv_a = a.GetValues(v)
+                b = Array(np.full(n, 2.0), v) + a
+                ok = len(conv_a) == n and all(close(conv_a[i], Scalar(float(vals[i]), u).GetValue(v)) for i in idx) and all(close(b.GetValues()[i], (Scalar(2.0, v) + Scalar(float(vals[i]), u)).GetValue()) for i in idx)
+                ok = ok and close(conv_a[n - 1], Scalar(float(vals[n - 1]), u).GetValue(v)) and close(conv_a[n - 2], Scalar(float(vals[n - 2]), u).GetValue(v))
+            except Exception as e:
+                ok = repr(e)[:160]
+            if ok is not True:
+                ctx.violation("large-array-differs-from-elementwise-scalars", dict(case, problem=ok), replay=case)
 
 
 def offset_twins(ctx, T, db, r):
@@ -304,4 +341,6 @@ def run(ctx):
         conversions_and_fromscalars(ctx, T, db, r, 300 if ctx.tier == "quick" else 5000)
         integer_containers(ctx, T, db, ctx.rng("ints"), 400 if ctx.tier == "quick" else 8000)
         offset_twins(ctx, T, db, ctx.rng("twins"))
+        if ctx.shard == 0:
+            large_arrays(ctx, T, db)
     ctx.inconclusive_if(probe.COUNTS["Array.__add__"] == 0 or probe.COUNTS["Array.__floordiv__"] == 0 or probe.COUNTS["Array.FromScalars"] == 0, "Array operators never reached")
